@@ -24,6 +24,7 @@ import (
 	"errors"
 	"fmt"
 	"reflect"
+	"sort"
 	"strings"
 	"time"
 	"unsafe"
@@ -303,7 +304,10 @@ func errClass(err error) string {
 }
 
 func (w *world) onClose(c *nbio.Conn, err error) {
-	// ---- atomic (runs on the closing thread)
+	// runs on the engine's notification thread, after the closing thread left its critical
+	// section; the mutex orders the reads below with A's calls (see begin/end)
+	c.Lock()
+	defer c.Unlock()
 	w.tick()
 	w.closes++
 	if w.closes > 1 {
@@ -347,7 +351,8 @@ func (w *world) onClose(c *nbio.Conn, err error) {
 			w.failf("timeout-close-without-expiry dir=%s|closed with %q at %s although no deadline timer of the connection had fired (orphan timers fired: %d); %s deadline: %s", dirName[dir], err, rel(w.closeAt), w.orphanF, dirName[dir], w.dlString(dir))
 		}
 	}
-	// closing cancels both deadlines: closeWithError stops the timers before it notifies
+	// closing cancels both deadlines: the timers are stopped before the notification is queued,
+	// and a call on the closed connection arms nothing
 	ts := snapTimers(c)
 	for d := 0; d < 2; d++ {
 		if ts.t[d].armed {
@@ -369,40 +374,49 @@ func (f fireRec) detailOr() string {
 	return fmt.Sprintf("fired at %s, %s", rel(f.at), f.verdict)
 }
 
-// run executes one operation of thread A and updates the model.
-func (w *world) run(o op) {
-	// ---- begin (atomic)
+// opRun is one operation of thread A between its begin and end bookkeeping.
+type opRun struct {
+	o      op
+	sb     nbio.ConnSnapshot
+	vs     time.Time
+	target time.Time
+	werr   error
+}
+
+// begin and end run under the connection mutex (conn.Lock): the harness reads private state of
+// the connection there, and the mutex is what orders those reads with the closing / flushing
+// threads in the scheduler's happens-before relation. No closing thread is inside its critical
+// section while the harness holds the mutex, so "closed" implies "its timers were stopped".
+func (w *world) begin(o op) *opRun {
 	w.tick()
-	oo := o
-	w.inflight = &oo
-	sb := w.conn.VerifSnapshot()
-	vs := vtime.VNow()
-	var target time.Time
+	r := &opRun{o: o, sb: w.conn.VerifSnapshot(), vs: vtime.VNow()}
+	w.inflight = &r.o
 	if o.isNonZero() {
-		target = vs.Add(time.Duration(o.d) * time.Second)
+		r.target = r.vs.Add(time.Duration(o.d) * time.Second)
 	}
-	peerGot := len(w.peer.Got)
-	roomB := K - w.peer.Queued()
 	if o.kind == 'C' {
 		w.userClose = true
 	}
-	var werr error
-	// ---- the call
+	return r
+}
+
+func (w *world) call(r *opRun) {
+	o := r.o
 	switch o.kind {
 	case 'R':
-		_ = w.conn.SetReadDeadline(target)
+		_ = w.conn.SetReadDeadline(r.target)
 	case 'W':
-		_ = w.conn.SetWriteDeadline(target)
+		_ = w.conn.SetWriteDeadline(r.target)
 	case 'D':
-		_ = w.conn.SetDeadline(target)
+		_ = w.conn.SetDeadline(r.target)
 	case 'w':
-		_, werr = w.conn.Write(ekit.Payload(w.seq, o.d))
+		_, r.werr = w.conn.Write(ekit.Payload(1, o.d))
 	case 'v':
 		var in [][]byte
 		for i := 0; i < o.d; i++ {
-			in = append(in, ekit.Payload(w.seq+i, 1))
+			in = append(in, ekit.Payload(2+i, 1))
 		}
-		_, werr = w.conn.Writev(in)
+		_, r.werr = w.conn.Writev(in)
 	case 'P':
 		w.peer.Read(0)
 	case 'Z':
@@ -410,12 +424,14 @@ func (w *world) run(o op) {
 	case 'C':
 		_ = w.conn.Close()
 	}
-	// ---- end (atomic)
+}
+
+func (w *world) end(r *opRun) {
 	w.tick()
+	o, sb, vs, target := r.o, r.sb, r.vs, r.target
 	w.inflight = nil
 	se := w.conn.VerifSnapshot()
 	ve := vtime.VNow()
-	_ = peerGot
 	switch {
 	case sb.Closed:
 		// no effect expected on a closed connection
@@ -424,8 +440,11 @@ func (w *world) run(o op) {
 			w.counters["set_after_close"]++
 		}
 	case se.Closed && o.kind != 'C':
-		// closed concurrently (by a timeout); the close notification resets the model
+		// closed concurrently (by a timeout): whatever the call did, the close cancelled it
 		w.counters["op_raced_with_close"]++
+		for dir := 0; dir < 2; dir++ {
+			w.dl[dir] = deadline{state: dlNone, via: "closed while " + o.String() + " was in flight"}
+		}
 	default:
 		switch o.kind {
 		case 'R', 'W', 'D':
@@ -449,8 +468,8 @@ func (w *world) run(o op) {
 				}
 			}
 		case 'w', 'v':
-			if werr != nil {
-				w.failf("harness|%s returned %v on an open connection", o, werr)
+			if r.werr != nil {
+				w.failf("harness|%s returned %v on an open connection", o, r.werr)
 				break
 			}
 			had := w.dl[1].state != dlNone
@@ -461,8 +480,9 @@ func (w *world) run(o op) {
 					w.counters["write_left_backlog_wdeadline_kept"]++
 				}
 			case sb.QueueLen == 0:
-				// nothing queued before, nothing after, the peer did not read in between: every byte
-				// went straight to the kernel and the call saw an empty backlog
+				// nothing queued before and nothing after, and the peer did not read in between (it
+				// only reads in A's own P operation): every byte went straight to the kernel and the
+				// call saw an empty backlog
 				if had {
 					w.counters["write_cleared_wdeadline"]++
 				}
@@ -475,7 +495,6 @@ func (w *world) run(o op) {
 					w.dl[1].state = dlMaybe
 				}
 			}
-			_ = roomB
 		case 'C':
 			for dir := 0; dir < 2; dir++ {
 				if w.dl[dir].state != dlNone {
@@ -485,32 +504,49 @@ func (w *world) run(o op) {
 			}
 		}
 	}
-	// cancelled / at most one timer per direction: judged whenever no closing thread can be in
-	// the middle of its critical section (the connection is open, or its close was notified)
-	if !se.Closed || w.closeSeen {
-		ts := snapTimers(w.conn)
-		how := "after " + o.String()
-		if sb.Closed && o.isNonZero() {
-			how = "set-after-close"
-		}
-		for dir := 0; dir < 2; dir++ {
-			if w.dl[dir].state == dlNone && ts.t[dir].armed {
-				sig := "clear"
-				switch {
-				case sb.Closed:
-					sig = "set-after-close"
-				case se.Closed || o.kind == 'C':
-					sig = "close"
-				case o.isWrite():
-					sig = "write-emptied-backlog"
-				}
-				w.failf("timer-armed-after-cancel dir=%s via=%s|%s: the %s deadline is %s but the connection's %s timer is armed for %s", dirName[dir], sig, how, dirName[dir], w.dlString(dir), dirName[dir], rel(ts.t[dir].when))
+	// cancelled / at most one timer per direction
+	ts := snapTimers(w.conn)
+	how := "after " + o.String()
+	if sb.Closed && o.isNonZero() {
+		how = "after " + o.String() + " on the closed connection"
+	}
+	for dir := 0; dir < 2; dir++ {
+		if w.dl[dir].state == dlNone && ts.t[dir].armed {
+			sig := "clear"
+			switch {
+			case sb.Closed:
+				sig = "set-after-close"
+			case se.Closed || o.kind == 'C':
+				sig = "close"
+			case o.isWrite():
+				sig = "write-emptied-backlog"
 			}
-		}
-		if n := ts.orphans(); n > 0 {
-			w.failf("orphan-timer after=%c|%s: %d armed deadline timer(s) that the connection no longer refers to (armed: %v)", o.kind, how, n, vtime.ArmedNames())
+			w.failf("timer-armed-after-cancel dir=%s via=%s|%s: the %s deadline is %s but the connection's %s timer is armed for %s", dirName[dir], sig, how, dirName[dir], w.dlString(dir), dirName[dir], rel(ts.t[dir].when))
 		}
 	}
+	if n := ts.orphans(); n > 0 {
+		w.failf("orphan-timer after=%c|%s: %d armed deadline timer(s) that the connection no longer refers to (armed: %v)", o.kind, how, n, vtime.ArmedNames())
+	}
+}
+
+// threadA runs the operation list.
+func (w *world) threadA(ops []op) {
+	var prev *opRun
+	for _, o := range ops {
+		w.conn.Lock()
+		if prev != nil {
+			w.end(prev)
+		}
+		prev = w.begin(o)
+		w.conn.Unlock()
+		w.call(prev)
+	}
+	w.conn.Lock()
+	if prev != nil {
+		w.end(prev)
+	}
+	w.aDone = true
+	w.conn.Unlock()
 }
 
 var lastCounters map[string]int
@@ -540,13 +576,7 @@ func body(c cfg) func() {
 			vsched.Fail("harness|timers armed before the first operation: %v", vtime.ArmedNames())
 			return
 		}
-		vsched.GoNamed("A", func() {
-			for _, o := range c.ops {
-				w.run(o)
-			}
-			w.tick()
-			w.aDone = true
-		})
+		vsched.GoNamed("A", func() { w.threadA(c.ops) })
 		vsched.GoNamed("clock", w.clock)
 		vsched.WaitIdle() // returns when A is done and the clock has fired every timer
 		// ---- final oracle
@@ -725,13 +755,20 @@ func lists(maxLen int) [][]op {
 	return out
 }
 
+// weighted is a scenario with a rough cost estimate; build sorts by it (heaviest first) so that
+// the round-robin sharding of vkit deals the expensive scenarios evenly over the workers.
+type weighted struct {
+	sc *vkit.Scenario
+	w  float64
+}
+
 func build(tier string) []*vkit.Scenario {
 	thorough := tier == "thorough"
-	var out []*vkit.Scenario
-	add := func(c cfg) {
-		out = append(out, &vkit.Scenario{Name: c.name(), Body: body(c), Check: check, P: c.p,
+	var all []weighted
+	add := func(c cfg, weight float64) {
+		all = append(all, weighted{&vkit.Scenario{Name: c.name(), Body: body(c), Check: check, P: c.p,
 			Counters: func() map[string]int { return lastCounters }, Outcome: func() string { return lastOutcome },
-			NonTrivial: func(m map[string]int) bool { return m["timers_fired"] > 0 }})
+			NonTrivial: func(m map[string]int) bool { return m["timers_fired"] > 0 }}, weight})
 	}
 	maxLen := 3
 	if thorough {
@@ -742,25 +779,56 @@ func build(tier string) []*vkit.Scenario {
 		if hasBacklog(l) || (thorough && len(l) <= 3) {
 			modes = ekit.Modes
 		}
-		for _, m := range modes {
-			p := 2
-			if thorough && len(l) <= 3 {
-				p = 3
+		nD, nSet, nZ := 0, 0, 0
+		for _, o := range l {
+			switch {
+			case o.kind == 'D':
+				nD++
+			case o.isSet():
+				nSet++
+			case o.kind == 'Z':
+				nZ++
 			}
-			if !thorough && len(l) == 3 {
+		}
+		// SetDeadline arms two timers at once; lists with two of them have up to four racing
+		// callbacks and are explored with one preemption less
+		p := 1
+		switch {
+		case len(l) <= 2 && nD <= 1:
+			p = 2
+		case len(l) == 3 && nD >= 2:
+			p = 0
+		}
+		if thorough {
+			p++
+			if len(l) == 4 {
 				p = 1
+				if nD >= 2 {
+					p = 0
+				}
 			}
-			add(cfg{mode: m, ops: l, p: p})
+		}
+		weight := float64(len(l)) * float64(1+nSet+4*nD) * float64(1+nZ)
+		for i := 0; i < p; i++ {
+			weight *= 6
+		}
+		for _, m := range modes {
+			add(cfg{mode: m, ops: l, p: p}, weight)
 		}
 	}
-	out = append(out, keepaliveScenarios(tier)...)
+	all = append(all, keepaliveScenarios(tier)...)
+	sort.SliceStable(all, func(i, j int) bool { return all[i].w > all[j].w })
+	out := make([]*vkit.Scenario, len(all))
+	for i, x := range all {
+		out[i] = x.sc
+	}
 	return out
 }
 
 func main() {
 	vkit.Main(&vkit.Spec{
 		Property: "C16", Level: "model_checking",
-		Rule:     "TODO",
+		Rule: "TODO",
 		Assumptions: []string{
 			"TODO",
 		},
